@@ -187,10 +187,8 @@ def run_case(case):
     from sigma.backends.test import TextQueryTestBackend
 
     r = root()
-    key = json.dumps(case.get("real", []), sort_keys=True)
-    if key not in _LAYOUT_OK:
-        check_layout(r, case.get("real", []))
-        _LAYOUT_OK.add(key)
+    if "real" in case:       # the by-construction table of physical locations, validated against this file system
+        check_layout(r, case["real"])
     doc = subst(copy.deepcopy(case["doc"]), r)
     a = case["args"]
     paths = None if a["paths"] is None else tuple(subst(a["paths"], r))
